@@ -58,6 +58,9 @@ def run(ctx):
         ('int f(int x,int y){ y = -(int)(long)x; }', 'int f(int x,int y){ y = x * 3; }', 'unary-of-double-cast'),
         ('int f(int x,int y){ y = +(long)(int)x; }', 'int f(int x,int y){ y = x; }', 'unary-of-double-cast'),
         ('int f(int x,int y){ (int)(long)x++; }', 'int f(int x,int y){ x = x + 1; }', 'double-cast-statement'),
+        ('int f(int x,int y){ y = (int)(long)x + (long)(int)y; }', 'int f(int x,int y){ y = x + y; }', 'double-cast-operand'),
+        ('int f(int x,int y){ y = (long)(int)x++; }', 'int f(int x,int y){ y = x; x = x + 1; }', 'double-cast-incr-operand'),
+        ('int f(int x,int y,int z){ y = (int)(long)(x * z); }', 'int f(int x,int y,int z){ y = x * z; }', 'double-cast-whole-rhs'),
         ('int f(int x,int y){ while (y < 9) { y = -(long)(int)x; x = x + y; } }', 'int f(int x,int y){ while (y < 9) { y = x * 3; x = x + y; } }', 'unary-of-double-cast'),
         ('int f(int x,int y){ while (x < 9) { y = (int)x; x++; } }', 'int f(int x,int y){ while (x < 9) { y = x; x = x + 1; } }', 'cast-whole-rhs-id'),
     ]
@@ -66,6 +69,7 @@ def run(ctx):
         cases.append((a, b, None, form))
     for i in range(n):
         g = Gen(rng, Opts(sugar=True, max_bin=5, max_stmts=3, whole_rhs_cast=(i % 2 == 0)))
+        g.o.double_casts = (i % 3 == 0)
         src = g.function()
         if not g.twins:
             continue
